@@ -474,6 +474,7 @@ theorem op_min (op : ROp) (rd : Rd) : MinS op.minSize (runOp op rd) rd := by
         have hw := hs.2.2 (by simp)
         have := readObj_min n f rd rd' c lp.width hw
         intro hok
+        simp only at hok ⊢
         have := this hok
         omega
   | peek lp => intro _; simp [ROp.minSize]
@@ -651,11 +652,11 @@ theorem op_I : (op : ROp) → op.pos = true → ∀ rd, GoodSI op.K (runOp op rd
           have hmono : (item.K + 1) * (rd'.rest.length - (loopItems (runProg item) n rd').rd.rest.length)
               ≤ (item.K + 1) * (rd.rest.length - (loopItems (runProg item) n rd').rd.rest.length) :=
             Nat.mul_le_mul_left _ (by omega)
-          simp only [Cost.add_iters, cost_empty_iters] at *; omega
+          simp only [Cost.add_iters] at *; omega
         · have := hloop.all
           have hmono : (item.K + 1) * (rd'.rest.length + 1) ≤ (item.K + 1) * (rd.rest.length + 1) :=
             Nat.mul_le_mul_left _ (by omega)
-          simp only [Cost.add_iters, cost_empty_iters] at *; omega
+          simp only [Cost.add_iters] at *; omega
 theorem prog_I : (p : RProg) → p.pos = true → ∀ rd, GoodSI p.K (runProg p rd) rd
   | .nil, _, rd => goodSI_zero (by simp [runProg])
   | .cons op rest, hp, rd => by
